@@ -15,7 +15,7 @@ PKG = "vcr/verifier"
 HARNESS = ["vcr/verifier/zz_verif_c01_test.go"]
 
 REQUIRED = ["check_order_irrelevant_for_accept", "valid_only_if", "key_is_from_the_issuers_document",
-            "vp_valid_only_if", "vp_every_other_credential_is_signature_checked", "fact_check_signature_flag_is_per_credential", "untrust_is_effective", "untrusted_issuer_is_rejected", "fact_trust_store_code", "fact_wiring", "fact_status_list_refresh_replaces_all_columns", "api_vc_valid_only_if", "wallet_lists_only_current_unrevoked", "wallet_validate_ok", "vp_check_order_irrelevant_for_accept", "empty_presentation_holder_is_not_checked",
+            "vp_valid_only_if", "vp_every_other_credential_is_signature_checked", "fact_check_signature_flag_is_per_credential", "untrust_is_effective", "untrusted_issuer_is_rejected", "fact_trust_store_code", "fact_wiring", "fact_key_lookup_iterates_the_relationship", "fact_status_list_renewal_loads_revocations", "fact_status_list_refresh_replaces_all_columns", "api_vc_valid_only_if", "wallet_lists_only_current_unrevoked", "wallet_validate_ok", "vp_check_order_irrelevant_for_accept", "empty_presentation_holder_is_not_checked",
             "tamper_evident", "tamper_evident_jwt", "tamper_evident_vp", "undefined_member_unsigned",
             "own_output_verifies_ld", "own_output_verifies_jwt", "own_presentation_verifies",
             "fact_verify_check_sequence", "fact_doVerifyVP_check_sequence", "fact_jsonldProof_check_sequence",
@@ -278,7 +278,8 @@ def run(ctx):
         vs = [v for v in state["hist"].get(did_, []) if v["from"] <= at_ms]
         if not vs or vs[-1]["deact"]:
             return False
-        return any(a[0] == kid and a[1] in (sig_keys or []) for a in vs[-1]["assertion"])
+        base = vs[-1].get("base") or None   # "@base": relative ids ("#k") of the ASSERTION relationship are completed with it
+        return any((a[0] == kid or (base and a[0].startswith("#") and base + a[0] == kid)) and a[1] in (sig_keys or []) for a in vs[-1]["assertion"])
 
     def vc_reasons(d, op, check_sig):
         at_ms = op["at"]
